@@ -132,16 +132,29 @@ def emit_guards(repo):
     # ---- diff: if shape_check: return safe_diff(u, t, order=order) else: return unsafe_diff(u, t, order=order)
     d = funcs.get('diff')
     body = [s for s in d.body if not (isinstance(s, ast.Expr) and isinstance(s.value, ast.Constant))]
-    good = (len(body) == 1 and isinstance(body[0], ast.If) and isinstance(body[0].test, ast.Name) and body[0].test.id == 'shape_check'
-            and len(body[0].body) == 1 and len(body[0].orelse) == 1)
-    if good:
-        a, b = body[0].body[0], body[0].orelse[0]
-        good = all(isinstance(x, ast.Return) and isinstance(x.value, ast.Call) and isinstance(x.value.func, ast.Name)
-                   and [ast.unparse(q) for q in x.value.args] == ['u', 't']
-                   and {k.arg: ast.unparse(k.value) for k in x.value.keywords} == {'order': 'order'} for x in (a, b)) \
-            and a.value.func.id == 'safe_diff' and b.value.func.id == 'unsafe_diff'
+    # accepted shapes (all mean: shape_check -> safe_diff(u, t, order=order), otherwise unsafe_diff(u, t, order=order)):
+    #   if T: return A else: return B   |   if T: return A <newline> return B   |   return A if T else B
+    # with T = shape_check or `not shape_check`
+    def _ret_call(x):
+        v = x.value if isinstance(x, ast.Return) else x
+        if (isinstance(v, ast.Call) and isinstance(v.func, ast.Name) and [ast.unparse(q) for q in v.args] == ['u', 't']
+                and {k.arg: ast.unparse(k.value) for k in v.keywords} == {'order': 'order'}):
+            return v.func.id
+        return None
+    test = then = other = None
+    if len(body) == 1 and isinstance(body[0], ast.If) and len(body[0].body) == 1 and len(body[0].orelse) == 1 \
+            and isinstance(body[0].body[0], ast.Return) and isinstance(body[0].orelse[0], ast.Return):
+        test, then, other = body[0].test, _ret_call(body[0].body[0]), _ret_call(body[0].orelse[0])
+    elif len(body) == 2 and isinstance(body[0], ast.If) and len(body[0].body) == 1 and not body[0].orelse \
+            and isinstance(body[0].body[0], ast.Return) and isinstance(body[1], ast.Return):
+        test, then, other = body[0].test, _ret_call(body[0].body[0]), _ret_call(body[1])
+    elif len(body) == 1 and isinstance(body[0], ast.Return) and isinstance(body[0].value, ast.IfExp):
+        test, then, other = body[0].value.test, _ret_call(body[0].value.body), _ret_call(body[0].value.orelse)
+    if isinstance(test, ast.UnaryOp) and isinstance(test.op, ast.Not):
+        test, then, other = test.operand, other, then
+    good = isinstance(test, ast.Name) and test.id == 'shape_check' and then == 'safe_diff' and other == 'unsafe_diff'
     if not good:
-        _err(d, 'diff: expected `if shape_check: return safe_diff(u, t, order=order) else: return unsafe_diff(u, t, order=order)`')
+        _err(d, 'diff: expected `if shape_check: return safe_diff(u, t, order=order) else: return unsafe_diff(u, t, order=order)` (or an equivalent early-return / inverted / conditional-expression form)')
     defaults = {a.arg: ast.unparse(dv) for a, dv in zip(d.args.args[-len(d.args.defaults):], d.args.defaults)}
     out.append('  (* diff(u, t, order, shape_check): true = goes through the shape guard *)')
     out.append('  Definition diff_checks_shape (shape_check : bool) : bool := shape_check.')
